@@ -34,7 +34,7 @@ ASSUMPTIONS = [
     "clock frozen with freezegun; host name identical (same process)",
 ]
 BUDGET = {"quick": (160, 4), "thorough": (24000, 16)}
-REQUIRED = ["sibling_histories", "ancestor_matches_pattern", "ancestor_ascmhl", "relative_invocation", "trailing_slash", "dot_invocation", "relocated_verify", "ancestor_glob_chars", "case_colliding_siblings", "create_sf", "rename_recorded_with_dr", "two_refused_children", "rename_with_duplicate_content", "relocated_verify_single_file"]
+REQUIRED = ["sibling_histories", "ancestor_matches_pattern", "ancestor_ascmhl", "relative_invocation", "trailing_slash", "dot_invocation", "relocated_verify", "ancestor_glob_chars", "case_colliding_siblings", "create_sf", "rename_recorded_with_dr", "two_refused_children", "rename_with_duplicate_content", "relocated_verify_single_file", "sf_run_with_overlapping_selection"]
 
 CFG = {
     "kinds": ["create"] * 8 + ["create_sf"] * 2 + ["put_new", "mkdir"],
@@ -43,6 +43,8 @@ CFG = {
     "flags": {"-n": 0.15},
     "max_leaves": 12,
     "min_top": 2,
+    "sf_overlap": True,
+    "sf_root": True,
 }
 FROZEN = "2021-06-01 10:20:30"
 MT = 1500000000
@@ -74,6 +76,11 @@ def _scn(draw):
                 scn["steps"] = [{"op": "create", "root": r, "formats": ["md5"], "flags": []} for r in draw(st.permutations(["Cards/a01", "Cards/A01"]))] + scn["steps"]
             scn["case_twins"] = True
     scn["steps"].append({"op": "create", "root": "", "formats": draw(gen.formats(2)), "flags": []})
+    if draw(st.integers(0, 2)) == 0 and not ({"ovl"} & hist.top_names_used(scn)):
+        # one -sf run that reaches several files twice (a folder and files inside it, a file named twice)
+        scn["tree"]["ovl"] = {"a.mov": "oa", "b.mov": "ob", "c": {"d.mov": "od", "e.mov": "oe"}}
+        scn["steps"].append({"op": "create_sf", "root": "", "formats": draw(gen.formats(2)), "flags": [], "sf": draw(st.sampled_from([["ovl", "ovl/b.mov", "ovl/c/e.mov"], ["ovl/c/d.mov", "ovl/a.mov", "ovl/c", "ovl/a.mov"], ["ovl/a.mov", "ovl"]]))})
+        scn["sf_overlap_run"] = True
     if draw(st.integers(0, 2)) == 0 and "renameme.mov" not in hist.top_names_used(scn):
         # a file with content of its own is sealed, renamed, and the rename recorded with -dr
         fm = draw(gen.formats(2))
@@ -277,6 +284,8 @@ def run_case(scn, ctx):
             feats.add("two_refused_children")
         if scn.get("rename_dup"):
             feats.add("rename_with_duplicate_content")
+        if scn.get("sf_overlap_run"):
+            feats.add("sf_run_with_overlapping_selection")
         for f in feats:
             ctx.event(f)
         ctx.mark_nontrivial("sibling_histories" in feats or "ancestor_matches_pattern" in feats)
